@@ -49,7 +49,9 @@ FAILING = {
     "kids.items.kids.items.extra": "kids.items.kids.items.extra",
 }
 REGS = [("f", e, d) for e in EXPRS for d in ("same", "ui")] + \
-       [("m", e, "same") for e in EXPRS]
+       [("m", e, "same") for e in EXPRS] + \
+       [("f", "child.value", "same", 1), ("f", "value", "same", 1),
+        ("m", "child.value", "same", 1)]     # registered on a second root
 GRAPH_EVENTS = [("child", 0, 1), ("child", 0, None), ("child", 1, 2),
                 ("kids_append", 0, 1), ("kids_append", 0, 2),
                 ("kids_append", 1, 2), ("kids_pop", 0), ("add_trait", 1),
@@ -80,8 +82,9 @@ class Owner:
 
 
 class World:
-    def __init__(self):
-        self.pool = G.make_pool()
+    def __init__(self, eq=False):
+        self.pool = G.make_pool(eq=eq)
+        self.eq = eq
         self.fcalls = []
         fcalls = self.fcalls
 
@@ -134,6 +137,8 @@ def enabled(w, ev):
     k = ev[0]
     if k in ("add", "remove") and ev[1] == "m" and w.owner is None:
         return False
+    if k in ("add", "remove") and len(ev) > 4 and w.pool[ev[4]] is None:
+        return False
     if k == "g":
         e = ev[1:]
         if w.o2_gone and (2 in e[1:]):
@@ -165,14 +170,17 @@ def step(ctx, w, ev, hist):
         nonlocal good
         good = False
         ctx.violation("C09:%s:%s" % (kind, ":".join(str(x) for x in ev[:3])),
-                      msg, history=hist)
+                      msg, history=hist, eq=w.eq)
+    if k in ("add", "remove"):
+        h, e, d = ev[1:4]
+        ri = ev[4] if len(ev) > 4 else 0
+        root = w.pool[ri]
+        rk = (h, e, d, ri)
     if k == "add":
-        _, h, e, d = ev
         root.observe(w.handler(h), e, dispatch=d)
-        w.n[(h, e, d)] = w.n.get((h, e, d), 0) + 1
-        ctx.nontriv(("add", h, e, d, w.n[(h, e, d)]))
+        w.n[rk] = w.n.get(rk, 0) + 1
+        ctx.nontriv(("add", rk, w.n[rk]))
     elif k == "remove":
-        _, h, e, d = ev
         before = w.fp()
         try:
             root.observe(w.handler(h), e, dispatch=d, remove=True)
@@ -182,10 +190,10 @@ def step(ctx, w, ev, hist):
         except Exception as exc:
             bad("remove-raises", "removal raised %r" % (exc,))
             return good
-        cnt = w.n.get((h, e, d), 0)
+        cnt = w.n.get(rk, 0)
         if cnt == 0:
             ctx.outcome("NotifierNotFound")
-            ctx.nontriv(("remove0", h, e, d))
+            ctx.nontriv(("remove0", rk))
             if raised is None:
                 bad("extra-removal-accepted", "removing a registration that "
                     "does not exist did not raise NotifierNotFound")
@@ -197,8 +205,8 @@ def step(ctx, w, ev, hist):
                 bad("removal-failed", "removal of an existing registration "
                     "(count %d) raised NotifierNotFound" % cnt)
             else:
-                w.n[(h, e, d)] = cnt - 1
-                ctx.nontriv(("remove", h, e, d, cnt))
+                w.n[rk] = cnt - 1
+                ctx.nontriv(("remove", rk, cnt))
     elif k == "g":
         try:
             G.prepare(w.pool, ev[1:])
@@ -272,13 +280,13 @@ def probe(ctx, w, hist):
             ctx.violation("C09:leftover-notifiers", "all registrations "
                           "removed but %d observer notifiers remain" % left,
                           history=hist)
-    root = w.pool[0]
-    watches = {e: G.watch(root, EXPRS[e]) for e in EXPRS}
+    watches = {(e, ri): G.watch(w.pool[ri], EXPRS[e])
+               for e in EXPRS for ri in (0, 1)}
     for o in G.all_objects(w.live_pool()):
         exp = {"f": set(), "m": set()}
-        for (h, e, d), cnt in active.items():
-            if ("trait", id(o), "value") in watches[e]:
-                exp[h].add(d)
+        for (h, e, d, ri), cnt in active.items():
+            if ("trait", id(o), "value") in watches[(e, ri)]:
+                exp[h].add((d, ri))
         w.fcalls.clear()
         if w.owner is not None:
             w.owner.calls.clear()
@@ -304,8 +312,8 @@ def probe(ctx, w, hist):
     return good
 
 
-def run_history(ctx, hist):
-    w = World()
+def run_history(ctx, hist, eq=False):
+    w = World(eq=eq)
     for i, ev in enumerate(hist):
         if not enabled(w, ev):
             return None, None
@@ -315,7 +323,7 @@ def run_history(ctx, hist):
             if not step(ctx, w, ev, hist):
                 return False, None
     ok = probe(ctx, w, hist)
-    key = (sorted((k, v) for k, v in w.n.items() if v),
+    key = (eq, sorted((k, v) for k, v in w.n.items() if v),
            G.shape(w.live_pool()), w.fp(), w.owner is None, w.o2_gone)
     return ok, key
 
@@ -350,7 +358,7 @@ _QUIET = _QuietCtx()
 def shards(tier):
     evs = event_menu()
     n = len(evs)
-    return [{"first": i} for i in range(n)]
+    return [{"first": i, "eq": eq} for eq in (False, True) for i in range(n)]
 
 
 def run_shard(ctx, shard, tier):
@@ -363,8 +371,8 @@ def run_shard(ctx, shard, tier):
         for hist in frontier:
             for ev in ([evs[shard["first"]]] if d == 1 else evs):
                 h2 = hist + [ev]
-                ctx.case({"history": h2})
-                ok, key = run_history(ctx, h2)
+                ctx.case({"history": h2, "eq": shard["eq"]})
+                ok, key = run_history(ctx, h2, eq=shard["eq"])
                 if ok is None:
                     continue
                 ctx.ev()
@@ -383,7 +391,7 @@ def replay(rec):
     ctx = Ctx("C09", None, "quick", 0)
     c = rec.get("case") or rec
     hist = [tuple(e) for e in c["history"]]
-    run_history(ctx, hist)
+    run_history(ctx, hist, eq=c.get("eq", False))
     print("history", hist)
     for v in ctx.violations.values():
         print("  violation:", v["sig"], v["msg"])
